@@ -40,10 +40,11 @@ type checkRunner struct {
 	mailFrom         string
 	mailFromReceived bool
 
-	checkedRcpts         []string
-	checkedRcptsPerCheck map[module.CheckState]map[string]struct{}
-	checkedRcptsLock     sync.Mutex
-	checkedBody          map[module.CheckState]struct{}
+	checkedRcpts          []string
+	checkedRcptsPerCheck  map[module.CheckState]map[string]struct{}
+	rejectedRcptsPerCheck map[module.CheckState]map[string]error
+	checkedRcptsLock      sync.Mutex
+	checkedBody           map[module.CheckState]struct{}
 
 	resolver      dns.Resolver
 	doDMARC       bool
@@ -59,13 +60,14 @@ type checkRunner struct {
 
 func newCheckRunner(msgMeta *module.MsgMetadata, log log.Logger, r dns.Resolver) *checkRunner {
 	return &checkRunner{
-		msgMeta:              msgMeta,
-		checkedRcptsPerCheck: map[module.CheckState]map[string]struct{}{},
-		checkedBody:          map[module.CheckState]struct{}{},
-		log:                  log,
-		resolver:             r,
-		dmarcVerify:          dmarc.NewVerifier(r),
-		states:               make(map[module.Check]module.CheckState),
+		msgMeta:               msgMeta,
+		checkedRcptsPerCheck:  map[module.CheckState]map[string]struct{}{},
+		rejectedRcptsPerCheck: map[module.CheckState]map[string]error{},
+		checkedBody:           map[module.CheckState]struct{}{},
+		log:                   log,
+		resolver:              r,
+		dmarcVerify:           dmarc.NewVerifier(r),
+		states:                make(map[module.Check]module.CheckState),
 	}
 }
 
@@ -256,7 +258,13 @@ func (cr *checkRunner) checkRcpt(ctx context.Context, checks []module.Check, rcp
 	err = cr.runAndMergeResults(states, func(s module.CheckState) module.CheckResult {
 		cr.checkedRcptsLock.Lock()
 		if _, ok := cr.checkedRcptsPerCheck[s][rcptTo]; ok {
+			// The check is not asked twice about the same recipient but
+			// if it has rejected it, a repeated RCPT TO should not pass.
+			reason, rejected := cr.rejectedRcptsPerCheck[s][rcptTo]
 			cr.checkedRcptsLock.Unlock()
+			if rejected {
+				return module.CheckResult{Reject: true, Reason: reason}
+			}
 			return module.CheckResult{}
 		}
 		if cr.checkedRcptsPerCheck[s] == nil {
@@ -266,6 +274,14 @@ func (cr *checkRunner) checkRcpt(ctx context.Context, checks []module.Check, rcp
 		cr.checkedRcptsLock.Unlock()
 
 		res := s.CheckRcpt(ctx, rcptTo)
+		if res.Reject && !res.Quarantine && res.Reason != nil {
+			cr.checkedRcptsLock.Lock()
+			if cr.rejectedRcptsPerCheck[s] == nil {
+				cr.rejectedRcptsPerCheck[s] = make(map[string]error)
+			}
+			cr.rejectedRcptsPerCheck[s][rcptTo] = res.Reason
+			cr.checkedRcptsLock.Unlock()
+		}
 		return res
 	})
 
